@@ -18,9 +18,9 @@
 (* Second formulation   the matrix accumulated sub-pixel by sub-pixel, the *)
 (*                      unique-mapping encoder with its first-occurrence   *)
 (*                      table, the corner/edge/centre neighbour table.     *)
-(* Layer 2 (machines)   Spec  : rectangular mappers and neighbour graphs   *)
-(*                      DelSpec : all candidate triangulations of small      *)
-(*                              vertex sets (what "valid" means)           *)
+(* Layer 2 (machines)   Spec    : rectangular mappers, neighbour graphs    *)
+(*                      DelSpec : all candidate triangulations of small    *)
+(*                                vertex sets (what "valid" means)         *)
 (* Layer 3 (properties) the invariants listed at the end.                  *)
 (***************************************************************************)
 EXTENDS Integers, Sequences, FiniteSets, TLC, Json, IOUtils, FiniteSetsExt, SequencesExt
@@ -28,8 +28,8 @@ EXTENDS Integers, Sequences, FiniteSets, TLC, Json, IOUtils, FiniteSetsExt, Sequ
 CONSTANTS ExhFamilies,      \* exhaustive rectangular families: << sub-size sequence, <<my,mx>> >>
           ExhL,             \* their positions range over (0..ExhL)^2
           NeighbourShapes,  \* <<my,mx>> whose neighbour graph is enumerated
-          DelSizes,         \* SpecD: numbers of vertices
-          DelL              \* SpecD: vertices range over (0..DelL)^2
+          DelSizes,         \* DelSpec: numbers of vertices
+          DelL              \* DelSpec: vertices range over (0..DelL)^2
 
 \* seeded instance family (JSON array of records kind/id/sub/pos/my/mx) written by the driver
 Insts == JsonDeserialize(IOEnv.INST_FILE)
@@ -321,16 +321,20 @@ RectNeighboursAre4Connectivity ==
     phase = "done" => \A a \in 0 .. PP - 1 : ToSet(nbr[a]) = Adj4(a, inp.my, inp.mx) /\ NoRepeats(nbr[a])
 
 -----------------------------------------------------------------------------
-(* Layer 2': the machine of candidate triangulations (DelSpec).  Init picks a vertex set without three     *)
+(* Layer 2': the machine of candidate triangulations (DelSpec).  Init picks a vertex set without three   *)
 (* collinear points and ANY set of simplices over it; Triangulate judges it.  The invariants say what    *)
 (* the validity predicates used on recorded executions characterise.                                     *)
 
+\* (all predicates are invariant under translation, so only vertex sets touching both axes are taken; a triangulation
+\*  of n points has at most 2n-5 triangles, so simplex sets with more than 2n-4 members add nothing)
 DelInit ==
     /\ \E n \in DelSizes : \E S \in kSubset(n, Lattice(DelL)) :
           LET V == SetToSortSeq(S, LAMBDA a, b : a[1] < b[1] \/ (a[1] = b[1] /\ a[2] < b[2])) IN
+          /\ 0 \in {p[1] : p \in S} /\ 0 \in {p[2] : p \in S}
           /\ NoThreeCollinear(V)
           /\ \E T \in SUBSET SortedTriples(V) :
-                inp = [kind |-> "del", id |-> 0, V |-> V, T |-> T]
+                /\ Cardinality(T) <= 2 * n - 4
+                /\ inp = [kind |-> "del", id |-> 0, V |-> V, T |-> T]
     /\ phase = "given" /\ tab = << >> /\ mat = << >> /\ uniq = << >> /\ nbr = << >>
 
 Triangulate ==
